@@ -534,6 +534,8 @@ TRANSPARENT = {
     "std::option::Option::<&T>::cloned", "std::option::Option::<&T>::copied",
     "std::option::Option::<T>::unwrap_or_default", "std::result::Result::<T, E>::as_ref",
     "std::mem::take", "std::mem::replace",
+    # conversions between Option and Result keep the success payload
+    "std::option::Option::<T>::ok_or", "std::option::Option::<T>::ok_or_else", "std::result::Result::<T, E>::ok",
 }
 
 # the `?` desugaring and error decorators: the value is argument 0 (possibly with a changed error)
@@ -622,6 +624,23 @@ def trace(body, op_or_place, transparent=is_transparent, through_try=True, throu
             if all(e["k"] == "field" and e.get("owner") in wrappers for e in fields):
                 from_local(l, neg, via, d)
                 return
+            # field-sensitive through locally built structs / tuples: `s = StepOutput { text, has_tail }; .. Ok(Some(s))? .. step.text`
+            # continues at the operand the aggregate was built with (every origin of the base value must be such an aggregate)
+            k0 = next((i for i, e in enumerate(proj) if e["k"] == "field" and e.get("owner") not in wrappers and not e.get("upvar")), None)
+            if k0 is not None and all(e["k"] in ("deref", "downcast") or (e["k"] == "field" and e.get("owner") in wrappers) for e in proj[:k0]):
+                f = proj[k0]
+                srcs = _agg_sources(body, l, f, transparent)
+                if srcs:
+                    rest = proj[k0 + 1:]
+                    for (abb, ops) in srcs:
+                        o = ops[f["i"]]
+                        if rest and o.get("k") in ("copy", "move"):
+                            from_place({"l": o["pl"]["l"], "p": o["pl"]["p"] + rest}, neg, via, d - 1)
+                        elif not [e for e in rest if e["k"] != "deref"]:
+                            from_op(o, neg, via, d - 1)
+                        else:
+                            leaves.append(Leaf("field", None, pl, neg, via))
+                    return
             # `(x as Some).0.1`: a tuple inside a wrapper payload — the wrapper is transparent, the tuple field is handled below
             if any(e["k"] == "field" and e.get("owner") in wrappers for e in fields) and \
                     all(e["k"] == "field" and e.get("owner") in wrappers + ("(tuple)",) for e in fields):
@@ -703,6 +722,8 @@ def trace(body, op_or_place, transparent=is_transparent, through_try=True, throu
                     a = rv["agg"]
                     if a["k"] == "adt" and a["adt"] in ("std::result::Result", "std::ops::ControlFlow") and a["variant"] in ("Err", "Break"):
                         pass      # an error value: not a carrier of the success payload (text, handle, path)
+                    elif a["k"] == "adt" and a["adt"] == "std::option::Option" and a["variant"] == "None":
+                        pass      # no payload at all
                     elif a["k"] == "adt" and a["adt"] in ("std::option::Option", "std::result::Result", "std::ops::ControlFlow") \
                             and len(rv["ops"]) == 1:
                         from_op(rv["ops"][0], neg, via, d - 1)      # Some(x) / Ok(x) wrap x
@@ -745,6 +766,68 @@ def trace(body, op_or_place, transparent=is_transparent, through_try=True, throu
     else:
         from_place(op_or_place, False, (), depth)
     return leaves
+
+
+def _agg_sources(body, l, f, transparent, depth=60):
+    """[(bb, ops)] of the struct / tuple aggregates that are the ONLY origins of local `l` (followed through moves, refs, Some/Ok
+    wrappers and their payload reads, `?`, error decorators and transparent calls), all of the ADT that field `f` belongs to;
+    None when some origin is anything else (a parameter, a call result, a partially assigned local ..)"""
+    wrappers = ("std::option::Option", "std::result::Result", "std::ops::ControlFlow")
+    out = []
+    seen = set()
+    work = [(l, depth)]
+    while work:
+        x, d = work.pop()
+        if x in seen:
+            continue
+        seen.add(x)
+        if d <= 0 or body.is_param(x):
+            return None
+        ds = body.defs().get(x, [])
+        if not ds:
+            return None
+        for rec in ds:
+            if rec[0] == "passign":
+                return None
+            if rec[0] == "call":
+                t = rec[2]
+                if t["dest"]["p"]:
+                    return None
+                if is_from_residual(t):
+                    continue
+                if t["args"] and (transparent(t) or is_try_branch(t) or is_err_decorator(t)):
+                    p = op_place(t["args"][0])
+                    if p is None or any(e["k"] not in ("deref", "downcast") and not (e["k"] == "field" and e.get("owner") in wrappers) for e in p["p"]):
+                        return None
+                    work.append((p["l"], d - 1))
+                    continue
+                return None
+            if rec[0] != "assign":
+                return None
+            rv = rec[3]["rv"]
+            if rv["k"] in ("use", "cast", "ref", "copyforderef"):
+                p = op_place(rv["op"]) if rv["k"] in ("use", "cast") else rv["pl"]
+                if p is None or any(e["k"] not in ("deref", "downcast") and not (e["k"] == "field" and e.get("owner") in wrappers) for e in p["p"]):
+                    return None
+                work.append((p["l"], d - 1))
+            elif rv["k"] == "aggregate":
+                a = rv["agg"]
+                if a["k"] == "adt" and a["adt"] in wrappers:
+                    if a["variant"] in ("Err", "Break", "None"):
+                        continue
+                    if len(rv["ops"]) != 1 or op_place(rv["ops"][0]) is None or op_place(rv["ops"][0])["p"]:
+                        return None
+                    work.append((op_place(rv["ops"][0])["l"], d - 1))
+                elif (a["k"] == "tuple" and f.get("owner") == "(tuple)") or \
+                        (a["k"] == "adt" and a["adt"] == f.get("owner") and (f.get("vi") is None or a.get("vi") == f.get("vi"))):
+                    if f["i"] >= len(rv["ops"]):
+                        return None
+                    out.append((rec[1], rv["ops"]))
+                else:
+                    return None
+            else:
+                return None
+    return out or None
 
 
 def _closure_ops(body, l, depth=6):
@@ -929,12 +1012,13 @@ def guard_edges(body, prog, pred):
 # a local) are tracked; every other switch keeps all its edges.
 
 
-def _payload_read(body, op, tags):
-    """`(X as V).0` read of a tracked local X whose payload is a bool -> (X, vi) else None"""
+def _payload_read(body, op, tags, want="b"):
+    """`(X as V).0` read of a tracked local X whose payload is a bool (want='b') / a nested Option/Result (want='t')
+    -> (X, vi) else None"""
     if op.get("k") not in ("copy", "move"):
         return None
     pl = op["pl"]
-    if pl["l"] not in tags or not _has_bool_payload(body.locals[pl["l"]]["ty"]):
+    if pl["l"] not in tags or _payload_kind(body.locals[pl["l"]]["ty"]) != want:
         return None
     pr = [e for e in pl["p"] if e["k"] != "deref"]
     if len(pr) == 2 and pr[0]["k"] == "downcast" and pr[1]["k"] == "field" and pr[1].get("i") == 0:
@@ -944,8 +1028,47 @@ def _payload_read(body, op, tags):
     return None
 
 
+def _split_targs(ty):
+    """top-level generic arguments of a type string `Head<A, B<C>, D>` -> (head, [A, B<C>, D])"""
+    i = ty.find("<")
+    if i < 0 or not ty.endswith(">"):
+        return ty, []
+    head, inner = ty[:i], ty[i + 1:-1]
+    args, depth, cur = [], 0, ""
+    for ch in inner:
+        if ch in "<([":
+            depth += 1
+        elif ch in ">)]":
+            depth -= 1
+        if ch == "," and depth == 0:
+            args.append(cur.strip())
+            cur = ""
+        else:
+            cur += ch
+    if cur.strip():
+        args.append(cur.strip())
+    return head, args
+
+
+def _payload_kind(ty):
+    """what the success payload of an Option/Result/ControlFlow type is, as far as explore() can track it:
+    'b' a bool, 't' another Option/Result (its variant), None anything else"""
+    head, args = _split_targs(ty)
+    if head in ("std::option::Option", "std::result::Result") and args:
+        pt = args[0]
+    elif head == "std::ops::ControlFlow" and len(args) == 2:
+        pt = args[1]
+    else:
+        return None
+    if pt == "bool":
+        return "b"
+    if _split_targs(pt)[0] in ("std::option::Option", "std::result::Result"):
+        return "t"
+    return None
+
+
 def _has_bool_payload(ty):
-    return "<bool" in ty or ", bool>" in ty
+    return _payload_kind(ty) == "b"
 
 
 def tracked_flags(body):
@@ -1052,6 +1175,9 @@ def tracked_tags(body):
                     useful = True
                 elif rv["k"] == "use" and rv["op"]["k"] in ("copy", "move") and not rv["op"]["pl"]["p"]:
                     useful = True
+                elif rv["k"] == "use" and rv["op"]["k"] in ("copy", "move") and rv["op"]["pl"]["l"] in cand and \
+                        _payload_kind(body.locals[rv["op"]["pl"]["l"]]["ty"]) == "t":
+                    useful = True       # `let opt = (res as Ok).0`: the nested variant travels as res's payload
             elif rec[0] == "call" and (is_from_residual(rec[2]) or _tag_conversion(rec[2])[0] is not None):
                 useful = True
         if not useful:
@@ -1081,7 +1207,7 @@ class _Slots:
         for l in sorted(tags):
             self.tidx[l] = n; n += 1
         for l in sorted(tags):
-            if tags[l] in TAG_ADTS and _has_bool_payload(body.locals[l]["ty"]):
+            if tags[l] in TAG_ADTS and _payload_kind(body.locals[l]["ty"]) is not None:
                 self.pidx[l] = n; n += 1
         for l in sorted(discr):
             self.didx[l] = n; n += 1
@@ -1116,6 +1242,9 @@ def _tracked_liveness(body, S):
         t = blk["term"]
         if t["k"] == "switch":
             reads_op(t["discr"], g)
+        elif t["k"] == "drop":
+            if t["pl"]["l"] in tracked:
+                g.add(t["pl"]["l"])      # which variant is being dropped matters to the error-discipline rules
         elif t["k"] == "call":
             if not t["dest"]["p"] and t["dest"]["l"] in tracked:
                 k.add(t["dest"]["l"])
@@ -1226,6 +1355,21 @@ def explore(body, cut=None, mark_edges=None, start_env=None, start_blocks=None):
             return e[idx[op["pl"]["l"]]]
         return None
 
+    def op_payload(op, e):
+        """what is known about a value that becomes the success payload of an aggregate: ('b', bool) / ('t', variant index)"""
+        bv = op_bool(op, e)
+        if bv is not None:
+            return ("b", bv)
+        if op["k"] in ("copy", "move") and not op["pl"]["p"] and op["pl"]["l"] in tidx and tags[op["pl"]["l"]] in TAG_ADTS:
+            v = e[tidx[op["pl"]["l"]]]
+            return ("t", v) if v is not None else None
+        # `Ok(move (r as Ok).0)`: re-wrapping the payload of another tracked local keeps what is known about it
+        for want in ("t", "b"):
+            pr = _payload_read(body, op, tags, want)
+            if pr is not None and pr[0] in pidx and e[tidx[pr[0]]] == pr[1]:
+                return e[pidx[pr[0]]]
+        return None
+
     while dq:
         st = dq.popleft()
         budget -= 1
@@ -1262,18 +1406,26 @@ def explore(body, cut=None, mark_edges=None, start_env=None, start_blocks=None):
                     pr = _payload_read(body, op, tags)
                     val = None
                     if pr is not None and pr[0] in pidx and e[tidx[pr[0]]] == pr[1]:
-                        val = e[pidx[pr[0]]]
+                        pv_ = e[pidx[pr[0]]]
+                        val = pv_[1] if pv_ is not None and pv_[0] == "b" else None
                     e[idx[l]] = val
             elif l in tidx:
                 if rv["k"] == "aggregate" and rv["agg"]["k"] == "adt" and rv["agg"]["adt"] == tags[l]:
                     e[tidx[l]] = rv["agg"]["vi"]
                     if l in pidx:
-                        e[pidx[l]] = op_bool(rv["ops"][0], e) if len(rv["ops"]) == 1 and rv["agg"]["vi"] == SUCCESS_VI.get(tags[l]) else None
+                        e[pidx[l]] = op_payload(rv["ops"][0], e) if len(rv["ops"]) == 1 and rv["agg"]["vi"] == SUCCESS_VI.get(tags[l]) else None
                 elif rv["k"] == "use" and rv["op"]["k"] in ("copy", "move") and not rv["op"]["pl"]["p"] and rv["op"]["pl"]["l"] in tidx:
                     sl = rv["op"]["pl"]["l"]
                     e[tidx[l]] = e[tidx[sl]]
                     if l in pidx:
                         e[pidx[l]] = e[pidx[sl]] if sl in pidx else None
+                elif rv["k"] == "use" and _payload_read(body, rv["op"], tags, "t") is not None:
+                    # `let opt = (res as Ok).0`: the variant of the nested Option/Result that was stored as res's payload
+                    X, vi = _payload_read(body, rv["op"], tags, "t")
+                    pv_ = e[pidx[X]] if X in pidx and e[tidx[X]] == vi else None
+                    e[tidx[l]] = pv_[1] if pv_ is not None and pv_[0] == "t" else None
+                    if l in pidx:
+                        e[pidx[l]] = None
                 else:
                     e[tidx[l]] = None
                     if l in pidx:
@@ -1358,6 +1510,20 @@ def explore(body, cut=None, mark_edges=None, start_env=None, start_blocks=None):
                 prev[ns] = st
                 dq.append(ns)
     return visited, marked, prev
+
+
+def tag_values_at(body, bb, l):
+    """the variant indices local `l` (an Option/Result/enum local) can hold on entry to block bb, over all explored paths;
+    contains None when unknown on some path.  None (not a set) when `l` is not tracked or the exploration gave up."""
+    S = _slots(body)
+    if l not in S.tidx:
+        return None
+    if getattr(body, "_explore_all", None) is None:
+        body._explore_all = explore(body)
+    prev = body._explore_all[2]
+    if not prev:
+        return None
+    return {st[1][S.tidx[l]] for st in prev if st[0] == bb}
 
 
 def guarded(body, site_bb, cut):
